@@ -8,6 +8,7 @@ import (
 	"encoding/hex"
 	"fmt"
 	"io"
+	"math"
 	"strconv"
 	"strings"
 
@@ -385,6 +386,65 @@ func (Prop) Generate(r *fw.Rand, tier string) []fw.Case {
 		}
 		cases = append(cases, fw.Case{Ops: ops, Tags: []string{"wal"}})
 	}
+	// floats: bit patterns a parser admits (finite), with both zeros, denormals, repeats,
+	// small and large xors; strings: empty, short, long, arbitrary bytes
+	nf := 150
+	if tier == "thorough" {
+		nf = 4000
+	}
+	for i := 0; i < nf; i++ {
+		n := genLen(r, tier)
+		if n > 400 {
+			n = 400
+		}
+		var hs []string
+		var prev uint64
+		for k := 0; k < n; k++ {
+			var u uint64
+			switch r.Intn(10) {
+			case 0:
+				u = 0 // +0
+			case 1:
+				u = 1 << 63 // -0
+			case 2:
+				u = prev // repeat
+			case 3:
+				u = prev ^ 1<<uint(r.Intn(64)) // one bit away
+			case 4:
+				u = uint64(r.Intn(1 << 20)) // denormals
+			case 5:
+				u = math.Float64bits(float64(r.Intn(1000)) / 8)
+			case 6:
+				u = math.Float64bits(float64(int64(r.U64()>>12)) * 1e-3)
+			case 7:
+				u = prev ^ (r.U64() >> uint(r.Intn(64)) << uint(r.Intn(32)))
+			default:
+				u = r.U64()
+			}
+			if f := math.Float64frombits(u); math.IsNaN(f) || math.IsInf(f, 0) {
+				u = prev
+			}
+			hs = append(hs, strconv.FormatUint(u, 16))
+			prev = u
+		}
+		cases = append(cases, fw.Case{Ops: []string{"fbatch " + strings.Join(hs, ",")}, Tags: []string{"float"}})
+		if i%3 == 0 {
+			var ss []string
+			for k := 0; k < 1+n/8; k++ {
+				l := []int{0, 0, 1, 3, 17, 300, 70000}[r.Intn(7)]
+				if l == 0 {
+					ss = append(ss, "-")
+					continue
+				}
+				b := make([]byte, l)
+				for j := range b {
+					b[j] = byte(r.Intn(256))
+				}
+				ss = append(ss, hx(b))
+			}
+			cases = append(cases, fw.Case{Ops: []string{"sbatch " + strings.Join(ss, ",")}, Tags: []string{"string"}})
+		}
+	}
 	// the reader's buffer while an entry is read whose header claims n bytes and of which p
 	// are there: around the chunk size, far beyond it, and the 4 GiB a torn header can spell
 	const chunk = 1 << 20
@@ -594,6 +654,89 @@ func runOp(op string) (out string) {
 			return "err"
 		}
 		return "ok " + s
+	case "fbatch":
+		// floats as 64-bit patterns (hex csv): the iterator encoder and the batch encoder, each
+		// read back by the iterator decoder and by the array decoder, bit for bit
+		var src []float64
+		for _, h := range strings.Split(f[1], ",") {
+			u, _ := strconv.ParseUint(h, 16, 64)
+			src = append(src, math.Float64frombits(u))
+		}
+		enc := tsm1.NewFloatEncoder()
+		for _, v := range src {
+			enc.Write(v)
+		}
+		enc.Flush()
+		b1, e1 := enc.Bytes()
+		b2, e2 := tsm1.FloatArrayEncodeAll(src, nil)
+		if e1 != nil || e2 != nil {
+			return "batch err"
+		}
+		rt := true
+		for _, b := range [][]byte{b1, b2} {
+			var dec tsm1.FloatDecoder
+			if err := dec.SetBytes(b); err != nil {
+				rt = false
+				continue
+			}
+			var got []float64
+			for dec.Next() {
+				got = append(got, dec.Values())
+			}
+			arr, err := tsm1.FloatArrayDecodeAll(b, nil)
+			if dec.Error() != nil || err != nil || len(got) != len(src) || len(arr) != len(src) {
+				rt = false
+				continue
+			}
+			for i := range src {
+				if math.Float64bits(got[i]) != math.Float64bits(src[i]) || math.Float64bits(arr[i]) != math.Float64bits(src[i]) {
+					rt = false
+				}
+			}
+		}
+		return fmt.Sprintf("batch rt=%v same=%v", rt, bytes.Equal(b1, b2))
+	case "sbatch":
+		// strings (hex csv, "-" = empty): both encoders, both decoders
+		var src []string
+		for _, h := range strings.Split(f[1], ",") {
+			if h == "-" {
+				src = append(src, "")
+			} else {
+				src = append(src, string(unhx(h)))
+			}
+		}
+		enc := tsm1.NewStringEncoder(len(src))
+		for _, v := range src {
+			enc.Write(v)
+		}
+		b1, e1 := enc.Bytes()
+		b2, e2 := tsm1.StringArrayEncodeAll(src, nil)
+		if e1 != nil || e2 != nil {
+			return "batch err"
+		}
+		rt := true
+		for _, b := range [][]byte{b1, b2} {
+			var dec tsm1.StringDecoder
+			if err := dec.SetBytes(b); err != nil {
+				rt = false
+				continue
+			}
+			var got []string
+			for dec.Next() {
+				got = append(got, dec.Read())
+			}
+			arr, err := tsm1.StringArrayDecodeAll(b, nil)
+			if dec.Error() != nil || err != nil || len(got) != len(src) || len(arr) != len(src) {
+				rt = false
+				continue
+			}
+			for i := range src {
+				if got[i] != src[i] || arr[i] != src[i] {
+					rt = false
+				}
+			}
+		}
+		return fmt.Sprintf("batch rt=%v same=%v", rt, bytes.Equal(b1, b2))
 	case "bbatch":
 		var src []bool
 		if f[1] != "-" {
@@ -788,7 +931,7 @@ func (Prop) Oracle(c fw.Case, out []string) fw.Verdict {
 					}
 				}
 			}
-		case "tbatch", "ibatch", "bbatch":
+		case "tbatch", "ibatch", "bbatch", "fbatch", "sbatch":
 			if !strings.Contains(o, "rt=true") {
 				return fw.Verdict{OK: false, Why: op[:min(len(op), 200)] + " => " + o, Signature: f[0] + " round-trip"}
 			}
